@@ -732,9 +732,9 @@ func (d *decoderState) ReadValue(flags *jsonwire.ValueFlags) (Value, error) {
 		}
 	}
 
-	// A literal or number can never be an object name; report that at the
+	// Only a string can be an object name; report anything else at the
 	// start of the value rather than lexing a value that cannot be valid here.
-	if (next == 'n' || next == 'f' || next == 't' || next == '0') && d.Tokens.Last.NeedObjectName() {
+	if (next == 'n' || next == 'f' || next == 't' || next == '0' || next == '{' || next == '[') && d.Tokens.Last.NeedObjectName() {
 		return nil, wrapSyntacticError(d, ErrNonStringName, pos, +1)
 	}
 
